@@ -128,8 +128,10 @@ def make_layout(rng, chain, coin, assign="contiguous", nfiles=3, gaps="none", nu
         extra_files = [("rev00000.dat", rbytes(rng, 100)), ("blkindex.dat", rbytes(rng, 50)), ("blk.dat", rbytes(rng, 10)),
                        ("blkabc.dat", b"x"), ("blk-1.dat", b"y"), ("blk00009.dat.bak", b"z"), ("README", b"hi"),
                        (default_name(unused, 5), rbytes(rng, 300)), ("subdir", None)]
-        if 9 not in names:
-            extra_files.append(("blk00009.dat", None))  # a directory named like a blk file
+        dnum = unused + 1
+        while dnum in names:
+            dnum += 1
+        extra_files.append((default_name(dnum, 5), None))  # a directory named like a blk file
     index_opts = index_style or {}
     desc = {"assign": assign, "files": len(used), "gaps": gaps, "numbering": numbering, "pad": pad, "sparse": sparse, "extras": extras,
             "index": index_opts, "file_order": file_order}
